@@ -34,6 +34,12 @@ var props = map[string]propSpec{
 		Scenarios: []scenarioBudget{{Name: "c14", QuickSec: 40, ThoroughSec: 900}}},
 	"C15": {ID: "C15", Level: "exploration", Rule: ruleCommon, Assume: commonAssume,
 		Scenarios: []scenarioBudget{{Name: "c15", QuickSec: 40, ThoroughSec: 900}}},
+	"C16": {ID: "C16", Level: "exploration", Rule: ruleCommon + "; each run's history of Update/Route operations (event-sequence-stamped) is checked with porcupine against a current-target-set model", Assume: append(append([]string{}, commonAssume...), "the Transport under the Client is a scripted fake RoundTripper (addresses, health and latency scripted per target); the Client code itself is real"),
+		Scenarios: []scenarioBudget{{Name: "c16", QuickSec: 40, ThoroughSec: 900}}},
+	"C17": {ID: "C17", Level: "exploration", Rule: ruleCommon, Assume: append(append([]string{}, commonAssume...), "the Transport under the Client is a scripted fake RoundTripper; latencies are exact on the fake clock"),
+		Scenarios: []scenarioBudget{{Name: "c17", QuickSec: 40, ThoroughSec: 900}}},
+	"C18": {ID: "C18", Level: "exploration", Rule: ruleCommon, Assume: append(append([]string{}, commonAssume...), "the Transport under the Client is a scripted fake RoundTripper; detection bound used by the oracle: 1 simulated second (10x the detector period)"),
+		Scenarios: []scenarioBudget{{Name: "c18", QuickSec: 40, ThoroughSec: 900}}},
 	"C06": {ID: "C06", Level: "exploration", Rule: ruleCommon, Assume: commonAssume,
 		Scenarios: []scenarioBudget{{Name: "c06", QuickSec: 40, ThoroughSec: 900}}},
 }
